@@ -151,6 +151,23 @@ static bool numeric_field_malformed(const std::string &s) {
   return false;
 }
 
+// "$sha1$<iterations>$<salt>[$...]": the hash repeats the whole salt, so a salt that leaves no room for
+// "$sha1$" + iterations + "$" + salt + "$" + 28 digest characters + NUL inside CRYPT_OUTPUT_SIZE cannot
+// produce a hash (finding F5; decided from the argument alone, only for the plain spelling of the number).
+static bool sha1crypt_cannot_fit(const std::string &s) {
+  if (s.compare(0, 6, "$sha1$")) return false;
+  size_t p = 6, d = 0;
+  while (p < s.size() && s[p] >= '0' && s[p] <= '9') { p++; d++; }
+  if (d == 0 || d > 19 || p >= s.size() || s[p] != '$') return false;
+  if (d > 1 && s[6] == '0') return false;    // leading zeros print shorter: not judged
+  p++;
+  size_t sl = 0;
+  static const char itoa64[] = "./0123456789ABCDEFGHIJKLMNOPQRSTUVWXYZabcdefghijklmnopqrstuvwxyz";
+  while (p + sl < s.size() && strchr(itoa64, s[p + sl])) sl++;
+  if (sl == 0 || (p + sl < s.size() && s[p + sl] != '$')) return false;
+  return 6 + d + 1 + sl + 1 + 28 + 1 > CRYPT_OUTPUT_SIZE;
+}
+
 // ================================================================= pattern set (C09)
 static inline uint64_t ld64(const void *p) { uint64_t v; memcpy(&v, p, 8); return v; }
 static inline uint64_t mixh(uint64_t x) { x *= 0x9e3779b97f4a7c15ULL; return x ^ (x >> 29); }
@@ -814,7 +831,7 @@ static void exec_hash(Run &r, int t, int i, const J &op) {
                    // classes the statement itself names, decided from the actual argument (never from a label):
                    // '$'-introduced prefix that hashes.conf does not list as enabled; curated, certainly malformed parameters
                    (!c.setting.null && !c.setting.b.empty() && c.setting.b[0] == '$' && !conf_for_prefix(c.setting.b)) ||
-                   (!c.setting.null && (is_curated_malformed(c.setting.b) || numeric_field_malformed(c.setting.b)));
+                   (!c.setting.null && (is_curated_malformed(c.setting.b) || numeric_field_malformed(c.setting.b) || sha1crypt_cannot_fit(c.setting.b)));
   // a crypt_ra whose block could not be (re)allocated never reaches the hash
   RefOut exp;
   if (!must_fail) {
